@@ -837,8 +837,13 @@ func (m *Manager) computeV2ParentMap(parentMap map[types.Hash256]int) map[types.
 func updateTxnProofs(txn *types.V2Transaction, updateElementProof func(*types.StateElement), numLeaves uint64) (valid bool) {
 	valid = true
 	updateProof := func(e *types.StateElement) {
+		if e.LeafIndex == types.UnassignedLeafIndex {
+			// ephemeral element: it has no proof to update, and its (sentinel)
+			// leaf index says nothing about whether it exists in our chain
+			return
+		}
 		valid = valid && e.LeafIndex < numLeaves
-		if !valid || e.LeafIndex == types.UnassignedLeafIndex {
+		if !valid {
 			return
 		}
 		*e = e.Copy()
